@@ -5,25 +5,29 @@
      qs[k] = [f, iu, wu, o, g]      one query: filter, include_unchanged, want_unversioned, and per implementation the
                                     observed change set as indices into recs (o: chk, inv, old, ds, wt) / grecs (g: rt, wt).
    The verdict table (queries with failed laws, the implementations at fault, drift against the declarative model) is
-   written back as JSON. *)
+   written back as JSON.  (The rows are bound once in a LET: a definition  Rows == JsonDeserialize(..)  would be
+   re-read at every use.) *)
 EXTENDS TreeDiff, Json, IOUtils, SequencesExt
-Rows == JsonDeserialize(IOEnv.VF_IN)
 VARIABLE i
-Init == i \in 1..Len(Rows)
+Init == i = 0
 Next == UNCHANGED i
-Q(r, k) == LET x == Rows[r].qs[k] IN [s |-> Rows[r].s, t |-> Rows[r].t, tx |-> Rows[r].tx, f |-> x.f, iu |-> x.iu, wu |-> x.wu]
 Pick(tab, idx) == [j \in 1..Len(idx) |-> tab[idx[j]]]
-O(r, k) == LET x == Rows[r].qs[k].o IN [key \in DOMAIN x |-> Pick(Rows[r].recs, x[key])]
-G(r, k) == LET x == Rows[r].qs[k].g IN [key \in DOMAIN x |-> Pick(Rows[r].grecs, x[key])]
-Verdict(r, k) == LET q == Q(r, k) o == O(r, k) g == G(r, k)
-                     failed == Failed(q, o) gf == GitFailed(q, g)
-                 IN [row |-> r, q |-> k, failed |-> SetToSeq(failed), gitfailed |-> SetToSeq(gf),
-                     culprits |-> IF failed = {} THEN <<>> ELSE SetToSeq(Culprits(q, o)),
-                     gitculprits |-> IF gf = {} THEN <<>>
-                                     ELSE SetToSeq({key \in DOMAIN g : GitFailed(q, [x \in {key} |-> g[key]]) # {}}),
-                     drift |-> SetToSeq(DriftKeys(q, o))]
-All == UNION {{Verdict(r, k) : k \in 1..Len(Rows[r].qs)} : r \in 1..Len(Rows)}
-Bad == SetToSeq({v \in All : v.failed # <<>> \/ v.gitfailed # <<>> \/ v.drift # <<>>})
-NQ == LET F[r \in 0..Len(Rows)] == IF r = 0 THEN 0 ELSE F[r - 1] + Len(Rows[r].qs) IN F[Len(Rows)]
-ASSUME JsonSerialize(IOEnv.VF_OUT, [n |-> Len(Rows), nq |-> NQ, bad |-> Bad])
+Verdict(row, r, k, x, g) ==
+    LET y == row.qs[k]
+        q == [tx |-> row.tx, f |-> y.f, iu |-> y.iu, wu |-> y.wu]
+        o == [key \in DOMAIN y.o |-> Pick(row.recs, y.o[key])]
+        go == [key \in DOMAIN y.g |-> Pick(row.grecs, y.g[key])]
+        failed == Failed(x, q, o) gf == GitFailed(g, q, go)
+    IN [row |-> r, q |-> k, failed |-> SetToSeq(failed), gitfailed |-> SetToSeq(gf),
+        culprits |-> IF failed = {} THEN <<>> ELSE SetToSeq(Culprits(x, q, o)),
+        gitculprits |-> IF gf = {} THEN <<>>
+                        ELSE SetToSeq({key \in DOMAIN go : GitFailed(g, q, [z \in {key} |-> go[key]]) # {}}),
+        drift |-> SetToSeq(DriftKeys(x, q, o))]
+RowVerdicts(row, r) == LET x == Pair(row.s, row.t) g == GitPair(x)       \* computed once per pair
+                       IN {Verdict(row, r, k, x, g) : k \in 1..Len(row.qs)}
+Judge(rows) == LET all == UNION {RowVerdicts(rows[r], r) : r \in 1..Len(rows)}
+                   nq[r \in 0..Len(rows)] == IF r = 0 THEN 0 ELSE nq[r - 1] + Len(rows[r].qs)
+               IN [n |-> Len(rows), nq |-> nq[Len(rows)],
+                   bad |-> SetToSeq({v \in all : v.failed # <<>> \/ v.gitfailed # <<>> \/ v.drift # <<>>})]
+ASSUME JsonSerialize(IOEnv.VF_OUT, Judge(JsonDeserialize(IOEnv.VF_IN)))
 =============================================================================
